@@ -763,8 +763,8 @@ def render(rng, var, w):
     return out
 
 
-def make_case(spec, var_name, words, texts, meta, diags=("prods", "suffix", "table", "nullables", "first", "follow")):
-    var = VARIANTS[var_name]
+def make_case(spec, var_name, words, texts, meta, diags=("prods", "suffix", "table", "nullables", "first", "follow"),
+              lexmap=None):
     lines = []
     for smart in (True, False):
         lines.append(enc_g(spec, smart))
@@ -773,10 +773,10 @@ def make_case(spec, var_name, words, texts, meta, diags=("prods", "suffix", "tab
             lines.append(enc_p(spec, t))
     m = dict(meta)
     m["variant"] = var_name
-    return {"lines": lines, "meta": m, "lexmap": dict(var["lex"])}
+    return {"lines": lines, "meta": m, "lexmap": dict(VARIANTS[var_name]["lex"] if lexmap is None else lexmap)}
 
 
-def gen_spec(rng, malformed_share=0.05, hidden_share=0.04):
+def gen_spec(rng, malformed_share=0.05, hidden_share=0.04, ll1_share=0.2):
     """-> (spec, variant name, meta)"""
     var_name = rng.choice(["plain"] * 4 + ["syn", "kw", "synkw", "noskip"])
     var = VARIANTS[var_name]
@@ -792,14 +792,16 @@ def gen_spec(rng, malformed_share=0.05, hidden_share=0.04):
         gen = "malformed"
     elif r < malformed_share + hidden_share:
         g, gen = gen_hidden_rec(rng, T, nts), "hiddenrec"
-    elif r < 0.25:
-        g, gen = gen_unbiased(rng, T, nts), "unbiased"
-    elif r < 0.50:
-        g, gen = gen_nonleftrec(rng, T, nts), "nonleftrec"
-    elif r < 0.80:
-        g, gen = gen_shaped(rng, T, nts), "shaped"
-    else:
+    elif r > 1.0 - ll1_share:
         g, gen = gen_ll1ish(rng, T, nts), "ll1ish"
+    else:
+        r2 = rng.random()
+        if r2 < 0.3:
+            g, gen = gen_unbiased(rng, T, nts), "unbiased"
+        elif r2 < 0.62:
+            g, gen = gen_nonleftrec(rng, T, nts), "nonleftrec"
+        else:
+            g, gen = gen_shaped(rng, T, nts), "shaped"
     start = nts[0]
     if rng.random() < 0.2 and gen != "malformed":
         rng.shuffle(g)               # dict order (sort_n, prods_map order) independent of the start symbol
@@ -812,9 +814,9 @@ def gen_spec(rng, malformed_share=0.05, hidden_share=0.04):
 
 
 def gen_ll_cases(rng, n_grammars, maxlen, extra_long=0, rec_maxlen=2, malformed_share=0.05, sentences=25,
-                 hidden_share=0.04, diags=("prods", "suffix", "table", "nullables", "first", "follow")):
+                 hidden_share=0.04, diags=("prods", "suffix", "table", "nullables", "first", "follow"), ll1_share=0.2):
     for _ in range(n_grammars):
-        spec, var_name, meta = gen_spec(rng, malformed_share, hidden_share)
+        spec, var_name, meta = gen_spec(rng, malformed_share, hidden_share, ll1_share)
         var = VARIANTS[var_name]
         ok = clean(spec)
         rec = ok and left_rec(user_grammar(spec))
@@ -870,11 +872,9 @@ def shrink(case):
 
     def mk(spec2, texts2, diags2=diags):
         try:
-            c = make_case(spec2, var_name, [], texts2, case["meta"], diags=tuple(diags2))
+            return make_case(spec2, var_name, [], texts2, case["meta"], diags=tuple(diags2), lexmap=case["lexmap"])
         except AssertionError:
             return None
-        c["lexmap"] = case["lexmap"]
-        return c
     out = []
     if diags:
         out.append(mk(spec, texts, []))
